@@ -153,6 +153,6 @@ def run(ctx):
         "the main replay is raw (--raw): histories are replayed exactly, without the aggregation operators' call discipline (emit(All) directly followed by clear_shrink); the three call-discipline defects and the emit(First n) collision-list defect were repaired in /repo (known_findings.json `fixed`), their minimal histories are still replayed separately on every run and would be reported if they failed again",
         "emit is only issued after at least one intern on the store (GroupValuesRows has no row buffer before the first intern)",
         "unseen keys of one batch must receive exactly the ids pre..pre+k (any order); GroupValuesColumn<false> numbers them out of first-seen order under hash collisions (e.g. NULL list vs empty list), which the property allows",
-        "floating point keys avoid NaN and -0.0",
-        "binding demonstrated while building: without the call discipline the replay flags 549 histories (the three known findings); corrupting expected ids/emitted keys is flagged by the harness",
+        "floating point pools contain NaN (one bit pattern, one key) but not -0.0: GroupValuesPrimitive canonicalizes -0.0 to +0.0 while the row-backed nested columns document a different treatment, so the property text does not fix the expected answer",
+        "binding demonstrated while building: on the pinned tree the raw replay flagged 549 histories (three defects) and the thorough tier a fourth; corrupting expected ids/emitted keys is flagged by the harness",
     ])
